@@ -2,7 +2,7 @@
    replays a request history on the cache machine, with H := SHA-256, and
    compares with the identifiers the real implementation answered.          *)
 From Coq Require Import ZArith NArith List Bool.
-From XV Require Import core.Value core.Sha256 model.Hash model.Cache model.Seal model.StateInv.
+From XV Require Import proofs.DefaultSig_lemmas core.Value core.Sha256 model.Hash model.Cache model.Seal model.StateInv.
 Import ListNotations.
 
 Inductive expect := XDigest (d : bytes) | XSealed | XErr.
@@ -43,3 +43,12 @@ Definition inv_icase (c : icase) : bool :=
   ginv_b sha256 (i_classes c) (hash_fuel (i_heap c)) (i_heap c, i_cache c).
 Definition diag_icase (c : icase) : list nat :=
   ginv_diag sha256 (i_classes c) (hash_fuel (i_heap c)) (i_heap c, i_cache c).
+
+(* the default test of the repaired implementation on pairs of configurations of an exported graph
+   (HashComputer.is_default with a default that holds configurations): 1 = "v is the default d" *)
+Definition default_pairs_icase (p : icase * list (nat * nat)) : list nat :=
+  let c := fst p in
+  map (fun dv : nat * nat =>
+         Nat.b2n (is_default_sig sha256 (i_classes c) (i_heap c) (look_of (i_cache c)) (hash_fuel (i_heap c))
+                                 (VRef (fst dv)) (VRef (snd dv))))
+      (snd p).
